@@ -147,8 +147,12 @@ pub fn jobs(tier: Tier) -> Vec<Job> {
     }
     // the "attempt started on stale state and ends at the commit head" window (findings F2, seeded
     // C03b/C05b) at attempt granularity
-    for c in [blocks::funding_chain(spec, 2), super::c04::gate_driver(spec, false).case] {
-        v.push(pipeline_job("c01-depth", &c, &RunCfg::parallel(2), FOCUS_ATTEMPT, if tier == Tier::Quick { 4 } else { 5 }, true));
+    for (i, c) in [blocks::funding_chain(spec, 2), super::c04::gate_driver(spec, false).case].iter().enumerate() {
+        let b = match tier {
+            Tier::Quick => if i == 0 { 4 } else { 3 },
+            Tier::Thorough => 5,
+        };
+        v.push(pipeline_job("c01-depth", c, &RunCfg::parallel(2), FOCUS_ATTEMPT, b, true));
     }
     match tier {
         Tier::Quick => {
